@@ -35,10 +35,11 @@ fn exec(t: &[String]) -> Option<String> {
     let set: GIntervalIndexSet = crate::with_bedlikes!(fl, &c.xs, |xs| xs.into_iter().collect());
     let mut w = W::new();
     w.n(set.len());
-    let it: Vec<&GenomicRange> = set.iter().collect();
+    let mode = mode_of(t);
+    let it: Vec<&GenomicRange> = drain_mode(set.iter(), mode);
     w.n(it.len());
     for g in it { put_gr(&mut w, g); }
-    let into: Vec<GenomicRange> = set.clone().into_iter().collect();
+    let into: Vec<GenomicRange> = drain_mode(set.clone().into_iter(), mode / 5);
     w.n(into.len());
     for g in &into { put_gr(&mut w, g); }
     w.n(n + 3);
@@ -51,13 +52,13 @@ fn exec(t: &[String]) -> Option<String> {
     for (qi, q) in c.qs.iter().enumerate() {
       crate::with_bedlike!(rot_flavour(fl, qi), q, |q| {
         w.flag(set.is_overlapped(&q));
-        let f: Vec<GenomicRange> = set.find(&q).collect();
+        let f: Vec<GenomicRange> = drain_mode(set.find(&q), mode + qi as u64);
         w.n(f.len());
         for g in &f { put_gr(&mut w, g); }
-        let fi: Vec<usize> = set.find_index_of(&q).collect();
+        let fi: Vec<usize> = drain_mode(set.find_index_of(&q), mode / 5 + qi as u64);
         w.n(fi.len());
         for i in fi { w.n(i); }
-        let ff: Vec<(GenomicRange, usize)> = set.find_full(&q).map(|(g, i)| (g, *i)).collect();
+        let ff: Vec<(GenomicRange, usize)> = drain_mode(set.find_full(&q).map(|(g, i)| (g, *i)), mode / 25 + qi as u64);
         w.n(ff.len());
         for (g, i) in &ff { put_gr(&mut w, g); w.n(*i); }
       });
@@ -71,7 +72,7 @@ fn exec(t: &[String]) -> Option<String> {
     w.n(c.qs.len());
     for (qi, q) in c.qs.iter().enumerate() {
       crate::with_bedlike!(rot_flavour(fl, qi), q, |q| {
-        let f: Vec<(GenomicRange, u64)> = map.find(&q).map(|(g, v)| (g, *v)).collect();
+        let f: Vec<(GenomicRange, u64)> = drain_mode(map.find(&q).map(|(g, v)| (g, *v)), mode / 125 + qi as u64);
         w.n(f.len());
         for (g, v) in &f { put_gr(&mut w, g); w.n(*v); }
         let fi: Vec<(GenomicRange, usize)> = map.find_index_of(&q).map(|(g, i)| (g, *i)).collect();
@@ -102,7 +103,7 @@ fn gen(rng: &mut Rng, tier: Tier) -> Vec<Case> {
     for i in 0..n_cases {
         let small = i % 3 != 0;
         let nch = rng.range(1, 3) as usize;
-        let chroms: Vec<&str> = (0..nch).map(|_| *rng.pick(CHROMS)).collect();
+        let chroms: Vec<&str> = gen_chroms(rng, nch);
         let n = if i % 40 == 0 { 0 } else if small { rng.range(1, 7) as usize } else { rng.range(5, 80) as usize };
         let max = if small { 20 } else { 3000 };
         let base = if !small && rng.chance(1, 5) { u64::MAX - 10_000 } else { 0 };
